@@ -13,6 +13,7 @@ import Driver.C17
 import Driver.C03
 import Driver.Faults
 import Driver.Block
+import Driver.C18
 open Sf
 
 def lawOf (s : String) : Option G711.Law :=
@@ -69,4 +70,5 @@ def main (args : List String) : IO UInt32 := do
   | "c03" :: rest => C03Driver.main rest
   | "faults" :: rest => FaultsDriver.cmd rest
   | "block" :: rest => Driver.Block.cmd rest
+  | "c18" :: rest => C18Driver.main rest
   | _ => IO.eprintln "usage: sfmodel <g711|...> ..."; return 2
